@@ -97,7 +97,7 @@ func seqJobList(prop, tier string) []*SeqJob {
 	case "C01":
 		return append(c01SeqJobs(tier), metricsPerScopeSweep("C01", "size-sweep-counters-and-histograms-per-scope", tier, map[string]bool{"counter": true, "histogram": true}), bothReportersJob("C01", tier), c01PanicJob(tier))
 	case "C07":
-		return []*SeqJob{c07SeqJob(tier), scopesPerRegistrySweep(tier), bothReportersJob("C07", tier)}
+		return []*SeqJob{c07SeqJob(tier), scopesPerRegistrySweep(tier), bothReportersJob("C07", tier), c07TaggedRootJob(tier)}
 	case "C08":
 		return []*SeqJob{bothReportersJob("C08", tier)}
 	case "C02":
